@@ -16,8 +16,14 @@ World   : the real FastAPI application (vp.harness.api_h) with
           active-user registration are real requests with an entitled identity.
 Twin    : the same world with every piece of T's and F's data replaced ("b": other tag values, other method/run-log/error-log
           text, other UOD command names and docstrings, other location/author, other archive) - ids and tag names stay.
-Request : ONE request per case, built from the template of the route, sent with the identity (roles=user) injected at the
-          dependency boundary.  Routes are DISCOVERED from app.routes; a route without an entry in TABLE is a harness error.
+          content["stale"] (roles or null): T has an earlier life under the same engine id in which it required `stale`; its
+          disconnect left a RecentEngines row with those roles, then the UOD's roles were changed and the engine came back.
+          Every world has its own engine/run ids, so state keyed by an id cannot leak from one case into the next.
+Request : the JUDGED request is built from the template of the route and sent with the identity (roles=user) injected at the
+          dependency boundary.  content["warm"] == "opposite": in the same application another user opens the pages of the
+          addressed object first (all its read routes + listings) - a user holding exactly the required roles when the judged user
+          is unauthorised, a stranger holding every other role when the judged user is open/entitled.
+          Routes are DISCOVERED from app.routes; a route without an entry in TABLE is a harness error.
 Oracle  : unauthorised (required != {} and required & user == {}):
             status 403 -> refused.  Anything else -> the same request against the twin world must give the identical status and
             body                                                                   else  leak:<route>[:<probe>]
@@ -55,7 +61,8 @@ ASSUMPTIONS = [
     "the LSP endpoints take no identity at all, so the same anonymous request is sent for every user-role set",
     "lint diagnostics of the language server (textDocument/publishDiagnostics) are not observed: pylsp debounces them on a wall-clock timer thread; hover and completion are",
     "the frontend pub/sub websocket, the web-push routes and the engine-side routes do not take a unit or run in their path and are classified out of scope (C33 covers push targeting)",
-    "one request per case on a fresh world; identical request against the twin world only when the answer was not 403",
+    "one judged request per case on a fresh world (own engine/run ids), optionally preceded by another user's read requests in the same application; the same sequence runs against the twin world only when the judged answer was not 403",
+    "content['stale'] (when not null): the unit's RecentEngines row was written while the same engine id required other roles (disconnect, UOD roles changed, engine restarted); the live unit's roles decide",
     "content['other'] (when not null) gives the object the route does NOT address other required roles: for unit routes the finished run was stored while the unit required `other`; for run routes the unit (and the offline unit) require `other` now - the decision must follow the addressed object",
 ]
 TIERS = {
@@ -69,7 +76,7 @@ def role_sets(roles):
     return [list(c) for n in range(len(roles) + 1) for c in itertools.combinations(roles, n)]
 
 
-RUN_OLD, RUN_CUR, RUN_N = "run-T-old", "run-T-cur", "run-N-old"
+ALL_ROLES = ("A", "B", "C", "D")
 LSP_TEXT = "Watch: TT01 > 5 degC\n    Mark: a\nCmdX: 1\nCm\nWatch: Extra"
 LSP_PROBES = [
     {"name": "hover-tag-value", "kind": "hover", "line": 0, "character": 9},          # "Current value: ..." of the live tag
@@ -198,7 +205,9 @@ def _valid_content(c):
         return isinstance(v, int) and not isinstance(v, bool) and lo <= v <= hi
     return (i("k", 0, 999) and i("n_lines", 1, 3) and i("n_errors", 0, 2) and i("n_runlog", 1, 2)
             and all(isinstance(c.get(b), bool) for b in ("run", "running", "archive", "str_tag"))
-            and (c.get("other") is None or _valid_roles(c.get("other"))))
+            and (c.get("other") is None or _valid_roles(c.get("other")))
+            and (c.get("stale") is None or _valid_roles(c.get("stale")))
+            and c.get("warm") in (None, "opposite"))
 
 
 def _valid(case):
@@ -220,12 +229,17 @@ class SetupDenied(Exception):
         self.key, self.roles, self.required = key, roles, required
 
 
-def build_world(h, required, content, variant, run_scope=False):
-    """-> dict(T=engine id, F=engine id, N=engine id).  `required` belongs to the addressed object: the finished run when
-    run_scope, else the units T and F; the other object requires content['other'] (or the same roles when that is None)."""
+def build_world(h, required, content, variant, run_scope=False, nonce=None):
+    """-> dict(T=, F=, N= engine ids, RUN=, RUN_CUR=, RUN_N= run ids, nonce=).  `required` belongs to the addressed object:
+    the finished run when run_scope, else the units T and F; the other object requires content['other'] (or the same roles when
+    that is None).  Every world - the twin too - has its own ids (nonce W<serial>X in computer names and run ids; answers are
+    compared with the nonce masked), so nothing keyed by an id can carry over from an earlier world in the same application."""
     import openpectus.protocol.engine_messages as EM
     import openpectus.protocol.models as PM
     h.reset_world()
+    if nonce is None:
+        nonce = "W%dX" % h.world_serial
+    RUN_OLD, RUN_CUR, RUN_N = "run-T-old-" + nonce, "run-T-cur-" + nonce, "run-N-old-" + nonce
     b = variant == "b"
     sv = "beta" if b else "alpha"
     k = content["k"] + (5000 if b else 0)
@@ -257,10 +271,21 @@ def build_world(h, required, content, variant, run_scope=False):
             hardware_str=hw, required_roles=set(roles), data_log_interval_seconds=0.0)
 
     # ---- T ----------------------------------------------------------------------------------------------
-    T = h.register("PC-T", "UodT", location="Loc-" + sv, author="Author-" + sv, email=sv + "@example.org", filename="uod_%s.py" % sv)
-    ch = h.connect(T)
     tagdefs = [("TT01", "degC"), ("Flow", "L/h")] + ([("Note", None)] if content["str_tag"] else []) + [("Extra-" + sv, None)]
     cmds = [("CmdX", "docstring of CmdX " + sv), ("Cmd-" + sv, "only in " + sv)]
+    stale = content.get("stale")
+    if stale is not None:
+        # an earlier life of the same engine id: it required `stale`, disconnected (RecentEngines row with those roles), then
+        # the UOD's required roles were changed and the engine was started again (below)
+        T0_ = h.register("PC-T-" + nonce, "UodT", location="OldLoc-" + sv, author="OldAuthor-" + sv, email=sv + "@example.org",
+                         filename="uod_old_%s.py" % sv)
+        h.connect(T0_)
+        h.send(T0_, uod_info(stale, tagdefs, cmds, "old hardware " + sv))
+        h.send(T0_, EM.TagsUpdatedMsg(tags=[_tv(PM, "System State", "Stopped", t0)], run_id=None))
+        h.disconnect(T0_)
+    T = h.register("PC-T-" + nonce, "UodT", location="Loc-" + sv, author="Author-" + sv, email=sv + "@example.org",
+                   filename="uod_%s.py" % sv)
+    ch = h.connect(T)
     h.send(T, uod_info(run_roles, tagdefs, cmds, "hardware " + sv))
 
     def tags(t, run, state):
@@ -331,13 +356,13 @@ def build_world(h, required, content, variant, run_scope=False):
         raise HarnessError("unexpected rpc calls during set-up: %r" % (ch.rpc_calls,))
     ch.rpc_calls.clear()
     # ---- F: same roles, offline ---------------------------------------------------------------------------
-    F = h.register("PC-F", "UodF", location="LocF-" + sv, author="AuthorF-" + sv)
+    F = h.register("PC-F-" + nonce, "UodF", location="LocF-" + sv, author="AuthorF-" + sv)
     h.connect(F)
     h.send(F, uod_info(unit_roles, [("TF", "degC")], [("CmdF-" + sv, "f")], "hardware F " + sv))
     h.send(F, EM.TagsUpdatedMsg(tags=[_tv(PM, "System State", "Stopped", t0)], run_id=None))
     h.disconnect(F)
     # ---- N: open unit, identical in both twins ----------------------------------------------------------------
-    N = h.register("PC-N", "UodN", location="LocN", author="AuthorN")
+    N = h.register("PC-N-" + nonce, "UodN", location="LocN", author="AuthorN")
     h.connect(N)
     h.send(N, uod_info([], [("TN", "degC")], [("CmdN", "n")], "hardware N"))
     h.send(N, EM.TagsUpdatedMsg(tags=[_tv(PM, "TN", 1.5, t0, "degC"), _tv(PM, "System State", "Stopped", t0)], run_id=None))
@@ -347,7 +372,7 @@ def build_world(h, required, content, variant, run_scope=False):
     h.send(N, EM.RunStoppedMsg(run_id=RUN_N, runlog=PM.RunLog(lines=[]), method_state=PM.MethodState.empty(), archive=None,
                                archive_filename=None))
     h.now = t0 + 50
-    return {"T": T, "F": F, "N": N}
+    return {"T": T, "F": F, "N": N, "RUN": RUN_OLD, "RUN_CUR": RUN_CUR, "RUN_N": RUN_N, "nonce": nonce}
 
 
 def _snapshot(h, T):
@@ -366,9 +391,9 @@ def _perform(h, spec, world):
         init_ok = s["accepted"] and isinstance(s["initialize"], dict) and "error" not in s["initialize"]
         parts = {}
         for p, res in zip(LSP_PROBES, s["probes"]):
-            parts[p["name"]] = json.dumps(res, sort_keys=True)
+            parts[p["name"]] = json.dumps(res, sort_keys=True).replace(world["nonce"], "W#X")
         return {"refused": not init_ok, "status": "ws-open" if init_ok else "ws-refused:%s" % s["close_code"], "parts": parts, "ids": None}
-    path = spec["path"].replace("{T}", world["T"]).replace("{RUN}", RUN_OLD)
+    path = spec["path"].replace("{T}", world["T"]).replace("{RUN}", world["RUN"])
     method = "POST" if spec["kind"] != "read" else "GET"
     r = h.request(method, path, json_body=spec.get("json"), params=spec.get("params"))
     ids = None
@@ -380,8 +405,8 @@ def _perform(h, spec, world):
                     ids.append(item.get("run_id"))
                 else:
                     ids.append(item.get("id") if "id" in item else (item.get("process_unit") or {}).get("id"))
-    return {"refused": r.status == 403, "status": r.status, "parts": {"body": "%d %s" % (r.status, r.body.decode("utf-8", "replace"))},
-            "ids": ids}
+    body = r.body.decode("utf-8", "replace").replace(world["nonce"], "W#X")      # ids differ from world to world only in the nonce
+    return {"refused": r.status == 403, "status": r.status, "parts": {"body": "%d %s" % (r.status, body)}, "ids": ids}
 
 
 def _excerpt(a: str, b: str, width: int = 110):
@@ -394,8 +419,24 @@ def _excerpt(a: str, b: str, width: int = 110):
     return pre + a[lo:lo + width], pre + b[lo:lo + width]
 
 
+def _warm_up(h, keys, world, run_scope, roles):
+    """another user (id peer-id, the given roles) opens the pages of the addressed object: every read route of the run (and the
+    run listing) when a run is addressed, else every read route of the unit, the unit listings and the grammar route"""
+    scopes = ("run", "list-runs") if run_scope else ("unit", "list-units", "lsp-unit")
+    h.set_identity(roles, "peer-id", "PEER")
+    statuses = []
+    for k in keys:
+        sp = _SPEC_BY_KEY[k]
+        if sp["scope"] in scopes and sp["kind"] == "read":
+            statuses.append(_perform(h, sp, world)["status"])
+    return statuses
+
+
 def _run_case(h, case):
     """-> (violations, classes, nontrivial)"""
+    keys = getattr(h, "_c32_keys", None)
+    if keys is None:
+        keys = h._c32_keys = discover(h)
     out: list[Violation] = []
     required, user, key, content = case["required"], case["user"], case["route"], case["content"]
     spec = _SPEC_BY_KEY[key]
@@ -412,9 +453,25 @@ def _run_case(h, case):
         classes.append("setup-denied")
         return [Violation("denied-%s:%s" % (rel, ex.key), "set-up of the world: the owner with roles %r was refused (403) by %s on a unit "
                           "requiring %r" % (ex.roles, ex.key, ex.required), case)], classes, False
-    before = _snapshot(h, world["T"])
-    h.set_identity(user, "user-id", "USER")
-    res = _perform(h, spec, world)
+    # content["warm"] == "opposite": before the judged request another user works with the same object in the same application -
+    # an entitled one when the judged user is unauthorised, a stranger (every role the object does not require) when the judged
+    # user is open/entitled.  Whatever the first user's requests leave behind (caches, state) must not change the verdict.
+    warm_roles = None
+    if content.get("warm") == "opposite":
+        if relation == "unauthorised":
+            warm_roles = list(required)
+        elif required:
+            warm_roles = [r for r in ALL_ROLES if r not in required]
+        classes.append("warm:" + ("entitled-first" if relation == "unauthorised" else ("stranger-first" if required else "nobody-to-refuse")))
+
+    def sequence(w):
+        if warm_roles is not None:
+            _warm_up(h, keys, w, run_scope, warm_roles)
+        snap = _snapshot(h, w["T"])
+        h.set_identity(user, "user-id", "USER")
+        return snap, _perform(h, spec, w)
+
+    before, res = sequence(world)
     after = _snapshot(h, world["T"])
     rpc = [type(m).__name__ for m in h.rpc_calls(world["T"])]
     classes.append("status:%s:%s" % (relation, res["status"]))
@@ -423,7 +480,7 @@ def _run_case(h, case):
 
     def expected(scope):
         if scope == "list-runs":
-            return {"run": RUN_OLD}
+            return {"run": world["RUN"]}
         if spec.get("offline"):
             return {"unit": world["T"], "offline-unit": world["F"]}
         return {"unit": world["T"]}
@@ -442,11 +499,8 @@ def _run_case(h, case):
                                          % (user, key, what, ident, required), case))
         if not res["refused"]:
             classes.append("unauthorised-not-refused")
-            twin_world = build_world(h, required, content, "b", run_scope)
-            h.set_identity(user, "user-id", "USER")
-            twin = _perform(h, spec, twin_world)
-            if twin_world["T"] != world["T"]:
-                raise HarnessError("twin world has another unit id")
+            twin_world = build_world(h, required, content, "b", run_scope)      # its own ids, see build_world
+            twin = sequence(twin_world)[1]
             leaking = [name for name in sorted(res["parts"]) if res["parts"][name] != twin["parts"].get(name)]
             if leaking:
                 name = "hover-tag-value" if "hover-tag-value" in leaking else leaking[0]     # the live tag value is the most telling part
@@ -486,16 +540,23 @@ def contents(draw):
     return {"k": draw(st.integers(0, 999)), "n_lines": draw(st.integers(1, 3)), "n_errors": draw(st.integers(0, 2)),
             "n_runlog": draw(st.integers(1, 2)), "run": draw(st.booleans()), "running": draw(st.booleans()),
             "archive": draw(st.booleans()), "str_tag": draw(st.booleans()),
-            "other": draw(st.one_of(st.none(), st.sampled_from(role_sets("ABC"))))}
+            "other": draw(st.one_of(st.none(), st.sampled_from(role_sets("ABC")))),
+            "stale": draw(st.one_of(st.none(), st.sampled_from(role_sets("ABC")))),
+            "warm": draw(st.sampled_from([None, "opposite"]))}
 
 
-# every shard runs its cells with these contents first: the richest world with equal roles on unit and run; the addressed
-# object restricted while the other one is open; the other one restricted to all roles (reached with required == [])
+# every shard runs its cells with these contents first:
+#  1 the richest world, equal roles on unit and run, one request on a fresh world;
+#  2 the addressed object restricted while the other one is open, the unit's RecentEngines row stems from a time when it required
+#    no roles, and another user (entitled / stranger) works with the object first;
+#  3 the other object restricted to all roles (reached with required == []), stale row requiring C, warm-up as in 2
 FIXED_CONTENTS = [
-    {"k": 7, "n_lines": 2, "n_errors": 1, "n_runlog": 2, "run": True, "running": True, "archive": True, "str_tag": True, "other": None},
-    {"k": 311, "n_lines": 1, "n_errors": 0, "n_runlog": 1, "run": True, "running": False, "archive": False, "str_tag": False, "other": []},
+    {"k": 7, "n_lines": 2, "n_errors": 1, "n_runlog": 2, "run": True, "running": True, "archive": True, "str_tag": True, "other": None,
+     "stale": None, "warm": None},
+    {"k": 311, "n_lines": 1, "n_errors": 0, "n_runlog": 1, "run": True, "running": False, "archive": False, "str_tag": False, "other": [],
+     "stale": [], "warm": "opposite"},
     {"k": 42, "n_lines": 3, "n_errors": 2, "n_runlog": 1, "run": False, "running": False, "archive": True, "str_tag": True,
-     "other": ["A", "B", "C"]},
+     "other": ["A", "B", "C"], "stale": ["C"], "warm": "opposite"},
 ]
 
 
@@ -518,6 +579,8 @@ def run_shard(col, cfg):
                 for name in ("run", "archive", "str_tag"):
                     if content[name]:
                         classes.append("content:" + name)
+                if content.get("stale") is not None:
+                    classes.append("stale-row:" + ("same-roles" if sorted(content["stale"]) == sorted(req) else "other-roles"))
                 col.record(case, nontrivial, classes=classes, violations=vs)
 
         for content in FIXED_CONTENTS[:int(cfg["fixed_contents"])]:
@@ -530,13 +593,14 @@ def shrink_hints(case):
     if not _valid(case):
         return
     base = {"k": 0, "n_lines": 1, "n_errors": 0, "n_runlog": 1, "run": False, "running": False, "archive": False, "str_tag": False,
-            "other": case["content"].get("other")}
+            "other": case["content"].get("other"), "stale": case["content"].get("stale"), "warm": case["content"].get("warm")}
     if case["content"] != base:
         yield dict(case, content=base)
         yield dict(case, content=dict(base, run=True))
         yield dict(case, content=dict(base, run=True, archive=True))
-    if case["content"].get("other") is not None:
-        yield dict(case, content=dict(case["content"], other=None))
+    for field in ("other", "stale", "warm"):
+        if case["content"].get(field) is not None:
+            yield dict(case, content=dict(case["content"], **{field: None}))
     for field in ("required", "user"):
         for i in range(len(case[field])):
             yield dict(case, **{field: case[field][:i] + case[field][i + 1:]})
